@@ -61,6 +61,24 @@ func refEncode(s string, in func(r rune) bool) string {
 	return sb.String()
 }
 
+func hexMember(set *url.PercentEncodeSet) bool {
+	for _, h := range "0123456789ABCDEF" {
+		if set.RuneShouldBeEncoded(h) {
+			return true
+		}
+	}
+	return false
+}
+
+func hexMemberLower(set *url.PercentEncodeSet) bool {
+	for _, h := range "abcdef" {
+		if set.RuneShouldBeEncoded(h) {
+			return true
+		}
+	}
+	return false
+}
+
 func (r *Rng) codecString() string {
 	n := r.Intn(8)
 	var sb strings.Builder
@@ -191,6 +209,22 @@ func init() {
 				if r.Chance(1, 6) {
 					set = set.Set('%')
 				}
+				// derived sets: members anywhere in the ASCII range (letters and digits included), as the property quantifies over them
+				if r.Chance(1, 3) {
+					var bits []uint
+					for j := 0; j < 1+r.Intn(4); j++ {
+						if r.Chance(1, 2) {
+							bits = append(bits, uint(r.pickByte("abzAZ09 \"#<>?`{}/:;=@[\\]^|'&+-._~!$()*,")))
+						} else {
+							bits = append(bits, uint(r.Intn(128)))
+						}
+					}
+					if r.Chance(2, 3) {
+						set = set.Set(bits...)
+					} else {
+						set = set.Clear(bits...)
+					}
+				}
 				in := func(x rune) bool { return set.RuneShouldBeEncoded(x) }
 				enc := p.PercentEncodeString(s, set)
 				cs := Case{Kind: "unit", Family: "codec", Input: s, Extra: map[string]string{"set": setSpec(set)}, Index: i}
@@ -213,7 +247,7 @@ func init() {
 								break
 							}
 						}
-						if again := p.PercentEncodeString(enc, set); again != enc {
+						if again := p.PercentEncodeString(enc, set); again != enc && !hexMemberLower(set) {
 							c.Report(Finding{Class: "violation", What: fmt.Sprintf("encoding is not idempotent: %q -> %q -> %q", s, enc, again), Case: cs})
 						}
 					}
@@ -230,11 +264,42 @@ func init() {
 					if dec != valid {
 						c.Report(Finding{Class: "violation", What: fmt.Sprintf("decode(encode(%q)) = %q, expected %q ('%%' is in the set)", s, dec, valid), Case: cs})
 					}
-				} else if want := url.VerifDecodePercentEncoded(p, valid); dec != want {
+				} else if want := url.VerifDecodePercentEncoded(p, valid); dec != want && !hexMember(set) && !hexMemberLower(set) {
+					// side conditions as in Properties/C10.v: a hex digit in the set would break up existing escapes
 					c.Report(Finding{Class: "violation", What: fmt.Sprintf("decode(encode(%q)) = %q but decode(%q) = %q", s, dec, valid, want), Case: cs})
 				}
 				if ref := pctDecode(s); url.VerifDecodePercentEncoded(p, s) != ref {
 					c.Report(Finding{Class: "violation", What: fmt.Sprintf("percent-decoding %q gives %q, expected %q", s, url.VerifDecodePercentEncoded(p, s), ref), Case: cs})
+				}
+				// the byte-level encoders (host parser, canonicalizer): escapes of exactly the member bytes, every byte above 0x7E a member
+				inB := func(b byte) bool { return b > 0x7e || set.RuneShouldBeEncoded(rune(b)) }
+				var wb strings.Builder
+				for k := 0; k < len(s); k++ {
+					if inB(s[k]) {
+						fmt.Fprintf(&wb, "%%%02X", s[k])
+					} else {
+						wb.WriteByte(s[k])
+					}
+				}
+				encB := url.VerifPercentEncodeStringBytes(s, set)
+				if encB != wb.String() {
+					c.Report(Finding{Class: "violation", What: fmt.Sprintf("byte-wise percent-encoding %q with set %s gives %q; escapes of exactly the member bytes give %q", s, setSpec(set), encB, wb.String()), Case: cs})
+				}
+				if m := unhx(d.Ask("ENCB " + setSpec(set) + " " + hx(s))); m != encB {
+					c.Report(Finding{Class: "correspondence", What: fmt.Sprintf("percentEncodeString (bytes) (%q): model %q, implementation %q", s, m, encB), Case: cs})
+				}
+				if de := canonicalizer.VerifDecodeEncode(s, set); true {
+					if m := d.Ask("DE " + setSpec(set) + " " + hx(s)); m == "FUEL" || unhx(m) != de {
+						c.Report(Finding{Class: "correspondence", What: fmt.Sprintf("decodeEncode(%q, %s): model %q, implementation %q", s, setSpec(set), m, de), Case: cs})
+					}
+					if !pctIn && !hexMember(set) {
+						for k := 0; k < len(de); k++ {
+							if inB(de[k]) {
+								c.Report(Finding{Class: "violation", What: fmt.Sprintf("decode-then-encode of %q with set %s leaves member byte 0x%02X unencoded: %q", s, setSpec(set), de[k], de), Case: cs})
+								break
+							}
+						}
+					}
 				}
 				// model
 				if m := unhx(d.Ask("ENC default " + setSpec(set) + " " + hx(s))); m != enc {
